@@ -17,10 +17,14 @@ HARNESSES = {
     'H5': {'threads': [[('send_text', A1), ('send_binary', B1)], [('send_binary', B2), ('send_text', A2)]],
            'ext': thr.DEFLATE_NCT, 'compress': True, 'nct': True},
     'H6': {'threads': [[('send_text', A1)], [('send_text', A2)]], 'ext': thr.DEFLATE, 'compress': True},
+    'H8': {'threads': [[('send_text', A1), ('send_text', A2)]], 'loop': 2, 'steps': ['COMPRESSED-TEXT'],
+           'ext': b'Sec-WebSocket-Extensions: permessage-deflate; server_no_context_takeover\r\n', 'compress': True},
+    'H9': {'threads': [[('send_binary', B1)], [('send_text', A2)]], 'loop': 2, 'steps': ['COMPRESSED-TEXT'],
+           'ext': thr.DEFLATE, 'compress': True},
     'H7': {'threads': [[('send_text', A1)], [('send_binary', B2)], [('send_text', A2)]], 'ext': thr.DEFLATE, 'compress': True},
 }
-BOUNDS = {'quick': {'H1': 1, 'H2': 1, 'H3': 1, 'H4': 1, 'H5': 1, 'H6': 2, 'H7': 1},
-          'thorough': {'H1': 2, 'H2': 2, 'H3': 2, 'H4': 2, 'H5': 2, 'H6': 3, 'H7': 2}}
+BOUNDS = {'quick': {'H1': 1, 'H2': 1, 'H3': 1, 'H4': 1, 'H5': 1, 'H6': 2, 'H7': 1, 'H8': 1, 'H9': 1},
+          'thorough': {'H1': 2, 'H2': 2, 'H3': 2, 'H4': 2, 'H5': 2, 'H6': 3, 'H7': 2, 'H8': 2, 'H9': 2}}
 PARTS = 16
 
 
@@ -50,11 +54,16 @@ def judge(ex, h):
             sent.append(m)
             per_thread.setdefault(tid, []).append(m)
     got = [m for m in msgs if m[1] is not None]
-    if h.get('loop'):
-        # frames written by the loop thread itself
-        app_pings = [m for m in sent if m[0] == PING]
+    app_pings = [m for m in sent if m[0] == PING]
+    if h.get('loop') and 'COMPRESSED-TEXT' in h.get('steps', []):
+        # the loop thread received a compressed message meanwhile: it must have been delivered intact
+        texts = [e.text for e in ex.events if e.name == 'text']
+        if texts != ['from the server, compressed: ' + 'xyz' * 20]:
+            out.append(('loop-receive', 'loop thread delivered %r for the compressed server message' % (texts,)))
+    elif h.get('loop'):
         if got.count((PONG, b'sp')) != 1:
             out.append(('loop-pong', 'expected exactly one Pong(sp) from the loop thread, wire %s' % brief(got)))
+    if h.get('loop'):
         # frames written by the loop thread itself: the Pong and any automatic Ping (whatever its payload)
         got = [m for m in got if m != (PONG, b'sp') and not (m[0] == PING and m not in app_pings)]
     if not any(p[0] in ('peer-cannot-inflate', 'torn-frame', 'invalid-frame') for p in problems):
